@@ -428,7 +428,16 @@ func sameCellLoad(a, b ssa.Value) bool {
 	}
 	ua, ok1 := a.(*ssa.UnOp)
 	ub, ok2 := b.(*ssa.UnOp)
-	return ok1 && ok2 && ua.Op == token.MUL && ub.Op == token.MUL && ua.X == ub.X
+	if !(ok1 && ok2 && ua.Op == token.MUL && ub.Op == token.MUL) {
+		return false
+	}
+	if ua.X == ub.X {
+		return true
+	}
+	// two loads of the same field of the same base
+	fa, okA := ua.X.(*ssa.FieldAddr)
+	fb, okB := ub.X.(*ssa.FieldAddr)
+	return okA && okB && an.SameField(an.FieldOfAddr(fa), an.FieldOfAddr(fb)) && an.Strip(fa.X) == an.Strip(fb.X)
 }
 
 // feedsReturn: does v (transitively, within fn) feed one of fn's return values?
